@@ -131,6 +131,19 @@ Theorem C15_versym_hidden_bit : forall v, versym_fits v = true ->
 Proof. exact versym_value_split. Qed.
 Print Assumptions C15_versym_hidden_bit.
 
+(* ---- one file holding all three sections, each linked to its own string table: the model's answers are
+   functions of (image, header table, section index) only, so every section's names come through that
+   section's sh_link, independently of the other sections and of the order of the questions ---- *)
+Theorem C15_one_file_sections_exact : forall le is64 img shdrs nd nn nv defs needs entries,
+  verdef_section_wf le img shdrs nd defs = true ->
+  verneed_section_wf le img shdrs nn needs = true ->
+  versym_section_wf le is64 img shdrs nv entries = true ->
+  file_verdef_versions le is64 img shdrs (Z.of_nat nd) = Ok (map verdef_view defs)
+  /\ file_verneed_versions le is64 img shdrs (Z.of_nat nn) = Ok (map verneed_view needs)
+  /\ file_versym_symbols le is64 img shdrs (Z.of_nat nv) = Ok (map versym_view entries).
+Proof. exact one_file_sections_exact. Qed.
+Print Assumptions C15_one_file_sections_exact.
+
 (* ---- resolving an index: the first entry in link order that carries it, else nothing ----
    (same domain: non-zero next links on all non-last entries and auxiliaries) *)
 Theorem C15_verdef_get_version_exact : forall le is64 img shdrs n defs idx,
